@@ -78,3 +78,10 @@ package actionlint
 //@   anchor
 //@   requires e.Column - 1 <= len(line)
 //@   at_call [C16] strings.Repeat: s == " " ==> count == strwidth(line[0..e.Column - 1])
+
+// C16: the texts of errors that end up in diagnostics: parse errors of callee files are flattened to
+// one line before they are wrapped (errtext(e) is e.Error())
+//@ func (*LocalReusableWorkflowCache).FindMetadata
+//@   at_return [C16] m == m && result1 != nil ==> nlfree(errtext(result1))
+//@ func (*LocalActionsCache).FindMetadata
+//@   ensures [C16] result2 != nil ==> nlfree(errtext(result2))
